@@ -7,9 +7,9 @@
   real value `f(x)` = `FunId.sem f x` (Mathlib's `Real.exp`, `log`, `sqrt`, `arctan`, `sin`, `cos`, `tan`, `cot`,
   `1/cos`, `1/sin`, `sinh`, `cosh`, `tanh`, `exp x - 1`, `log (1+x)`, `arcsin`, `arccos`, `arsinh`, `arcosh`,
   `artanh`, `sin (π x)`, `cos (π x)`, `π`), and a verdict is only produced for `x` inside the real domain of `f`.
-  Not claimed: a theorem about mpmath's series code; complex arguments; pow/root/atan2/hypot (not yet in `FunId`).
+  Not claimed: a theorem about mpmath's series code; complex arguments; atan2, arg, the reciprocal inverse functions (acot, asec, …).
 -/
-import MpProofs.EnclSound
+import MpProofs.Encl2Sound
 
 namespace Mp
 open Mp.Encl
@@ -40,6 +40,32 @@ theorem C12_enclosure (f : FunId) (wp : ℕ) (x : Dy) (F : DI) (h : evalPoint f 
 theorem C12_validator_dom (f : FunId) (x y : Dy) (p k : ℕ) (h : accCheck f x y p k ≠ .undecided) :
     f.dom x.val :=
   accCheck_dom f x y p k h
+
+/-- cbrt / root: the integer checker `rootCheck` (driver op `accroot`) decides the accuracy inequality for the
+real `n`-th root `x^(1/n)` of `x ≥ 0` -/
+theorem C12_root_validator (n : ℕ) (x y : Dy) (p k : ℕ) :
+    (rootCheck n x y p k = .ok →
+      |y.val - nthRoot n x.val| ≤ (2 : ℝ) ^ ((k : ℤ) - (p : ℤ)) * nthRoot n x.val) ∧
+    (rootCheck n x y p k = .violates →
+      (2 : ℝ) ^ ((k : ℤ) - (p : ℤ)) * nthRoot n x.val < |y.val - nthRoot n x.val|) :=
+  rootCheck_sound n x y p k
+
+/-- two-argument functions (driver op `acc2`): real power `x^y` and `x^y − 1` for `x > 0`, `hypot`, `log_b x` -/
+theorem C12_validator2 (f : Fun2) (x y z : Dy) (p k : ℕ) :
+    (accCheck2 f x y z p k = .ok →
+      |z.val - f.sem x.val y.val| ≤ (2 : ℝ) ^ ((k : ℤ) - (p : ℤ)) * |f.sem x.val y.val|) ∧
+    (accCheck2 f x y z p k = .violates →
+      (2 : ℝ) ^ ((k : ℤ) - (p : ℤ)) * |f.sem x.val y.val| < |z.val - f.sem x.val y.val|) ∧
+    (accCheck2 f x y z p k ≠ .undecided → f.dom x.val y.val) :=
+  accCheck2_sound f x y z p k
+
+/-- sinc (driver op `accsinc`) -/
+theorem C12_validator_sinc (x y : Dy) (p k : ℕ) :
+    (accCheckSinc x y p k = .ok →
+      |y.val - Real.sinc x.val| ≤ (2 : ℝ) ^ ((k : ℤ) - (p : ℤ)) * |Real.sinc x.val|) ∧
+    (accCheckSinc x y p k = .violates →
+      (2 : ℝ) ^ ((k : ℤ) - (p : ℤ)) * |Real.sinc x.val| < |y.val - Real.sinc x.val|) :=
+  accCheckSinc_sound x y p k
 
 -- non-vacuity: see `MpProofs/EnclExamples.lean` (`accCheck … = .ok` and `= .violates` by kernel evaluation)
 example : accCheck .exp ⟨1, 0⟩ ⟨2850325, -20⟩ 24 3 = .ok := by decide +kernel
